@@ -157,7 +157,13 @@ func hostBlocked(cf *config, name string, qt uint16) bool {
 	host := strings.ToLower(strings.TrimSuffix(name, "."))
 	req := rules.NewRequestForHostname(host)
 	req.DNSType = qt
-	for i, h := range cf.Hosts {
+	hosts := cf.Hosts
+	if len(hosts) == 0 && cf.Via != "api" {
+		// An empty list in the configuration means the default list (an empty
+		// list set through the API is empty until the next reconfiguration).
+		hosts = []string{"version.bind", "id.server", "hostname.bind"}
+	}
+	for i, h := range hosts {
 		r, err := rules.NewRule(strings.ToLower(h), i)
 		if err != nil || r == nil {
 			continue
@@ -386,6 +392,9 @@ func clientRequests() []request {
 				out = append(out, request{Proto: string(p), Addr: a, SNI: l, Name: "example.org", Qtype: "A"})
 			}
 		}
+		// A name of the default blocked-hosts list (in force when none is configured).
+		out = append(out, request{Proto: string(p), Addr: "1.2.3.4", Name: "version.bind", Qtype: "TXT", Class: "CH"},
+			request{Proto: string(p), Addr: "9.9.9.9", Name: "hostname.bind", Qtype: "TXT", Class: "CH"})
 	}
 	return out
 }
@@ -451,9 +460,32 @@ func run(c *lib.Ctx) {
 						rq = append(rq, request{Proto: string(p), Addr: "1.2.3.4", Name: n, Qtype: qt})
 					}
 					rq = append(rq, request{Proto: string(p), Addr: "1.2.3.4", Name: n, Qtype: "TXT", Class: "CH"})
+					if p == proxy.ProtoTLS || p == proxy.ProtoQUIC || p == proxy.ProtoHTTPS {
+						// the same question on a connection that carries a ClientID
+						rq = append(rq, request{Proto: string(p), Addr: "1.2.3.4", SNI: "cid-a", Name: n, Qtype: "A"})
+					}
 				}
 			}
 			e.runConfig(&cf, rq)
+		}
+	}
+	// Part C: single addresses written with a zone (they match that zone only).
+	var zr []request
+	for _, p := range protos {
+		for _, a := range []string{"fe80::2%eth0", "fe80::2%eth1", "fe80::2", "1.2.3.4"} {
+			zr = append(zr, request{Proto: string(p), Addr: a, Name: "example.org", Qtype: "A"})
+		}
+	}
+	for _, cl := range []config{{Allowed: []string{"fe80::2%eth0"}}, {Disallowed: []string{"fe80::2%eth0"}}, {Allowed: []string{"fe80::2%eth0", "1.2.3.4"}},
+		{Disallowed: []string{"fe80::2%eth0", "cid-b"}}, {Allowed: []string{"fe80::2%eth1", "fe80::2"}}} {
+		for _, via := range []string{"", "api"} {
+			idx++
+			if !c.Mine(idx) {
+				continue
+			}
+			cf := cl
+			cf.Via = via
+			e.runConfig(&cf, zr)
 		}
 	}
 	partDoH(c, &idx)
@@ -561,7 +593,7 @@ func main() {
 				"distinct_cells":      m.Distinct["cells"],
 				"ambiguous_4in6":      m.Counters["ambiguous_4in6"],
 				"loopback_exchanges":  m.Counters["loopback_exchanges"],
-				"rule": "every disjoint (allowed, disallowed) pair of subsets of size <=2 (thorough <=3) of 10 list items (IPv4/IPv6 addresses, CIDRs of several lengths incl. /0, ClientIDs) x 6 protocols x 9 client addresses (in/out of each CIDR, zoned, 4-in-6) x 4 ClientID labels (TLS/QUIC/DoH); 8 blocked-host pattern sets x 3 client-list settings x 6 names x 3 qtypes x 6 protocols; each through HandleBefore + the request handler of a real server with recording upstream, query log and statistics. Oracle: set-theoretic access model; excluded => dropped (UDP/DNSCrypt) or REFUSED, and no upstream call, log entry or statistics update. Loopback conformance: real UDP/TCP exchanges on 127.0.0.1. distinct_nontrivial = distinct (config, request) with a non-empty access configuration",
+				"rule":                "every disjoint (allowed, disallowed) pair of subsets of size <=2 (thorough <=3) of 10 list items (IPv4/IPv6 addresses, CIDRs of several lengths incl. /0, ClientIDs) x 6 protocols x 9 client addresses (in/out of each CIDR, zoned, 4-in-6) x 4 ClientID labels (TLS/QUIC/DoH); 8 blocked-host pattern sets x 3 client-list settings x 6 names x 3 qtypes x 6 protocols; each through HandleBefore + the request handler of a real server with recording upstream, query log and statistics. Oracle: set-theoretic access model; excluded => dropped (UDP/DNSCrypt) or REFUSED, and no upstream call, log entry or statistics update. Loopback conformance: real UDP/TCP exchanges on 127.0.0.1. distinct_nontrivial = distinct (config, request) with a non-empty access configuration",
 			}
 		},
 		Assumptions: []string{"blocked-host pattern matching delegated to urlfilter", "for 4-in-6 client addresses whose mapped and unmapped readings differ the verdict is not judged (counted as ambiguous_4in6)", "list entries are lower-case ClientIDs"},
